@@ -318,6 +318,26 @@ func c12R6(c *Ctx, r *Report, rule string) {
 				}
 			}
 		}
+		// the header deadline belongs to NewConn (which clears it once the header is read): a deadline set on the
+		// connection itself stays armed and cuts the client's stream when it passes
+		for _, p := range paths {
+			for _, e := range p.Trace {
+				if e.Kind == "call" && (strings.HasSuffix(e.What, ".SetReadDeadline") || strings.HasSuffix(e.What, ".SetDeadline")) {
+					problems = append(problems, "a read deadline is set on the connection while the header is awaited ("+e.What+"): nothing clears it after the header, every later read of the client's stream fails once it has passed")
+				}
+			}
+			if len(p.Ret) == 1 && strings.HasPrefix(p.Ret[0].Desc, "NewConn(cx,") {
+				timeoutZero := false
+				for _, a := range p.Assume {
+					if strings.Contains(a, "== 0)=true") {
+						timeoutZero = true
+					}
+				}
+				if !timeoutZero && !strings.Contains(p.Ret[0].Desc, "now+") && !strings.Contains(p.Ret[0].Desc, "zero") {
+					problems = append(problems, "with a timeout configured the header deadline handed to NewConn must be now + timeout, is "+p.Ret[0].Desc)
+				}
+			}
+		}
 		r.check(len(problems) == 0, rule, fnName, sc.Name, c.pos(fn.Pos()), fmt.Sprintf("%d paths", len(paths)), strings.Join(dedup(problems), "\n"))
 	}
 }
